@@ -502,12 +502,26 @@ def write_doc(rng, I, st, root, outline, pretty):
             # moved_attributes_keep_their_prefixes); the other bindings stay on their elements and travel
             # with the moved content.
             P, k0, k1 = st.axis
+            # an array item without xsi:type of its own is typed by Encoded.applyaty with the TEXT of the array's
+            # arrayType QName, resolved on the item: an item that re-binds that spelling is outside the family
+            # (it decodes untyped in line as well; reported as debatable)
+            typed_by_array = set()
+
+            def scan(c, seen):
+                if id(c) in seen:
+                    return
+                seen.add(id(c))
+                for k in c.kids:
+                    if c.kind == "array" and not any(a[0] == "xsi" and a[1] == "type" for a in k.content.attrs):
+                        typed_by_array.add(id(k.content))
+                    scan(k.content, seen)
+            scan(root.content, set())
             for i, (rid, c) in enumerate(defs):
                 scratch = set()
                 W.element("x", c.attrs, c, href_of, scratch)
                 if k0 in scratch:
                     kinds[i] = k0
-                elif k1 in scratch and not has_refs(c, href_of):
+                elif k1 in scratch and not has_refs(c, href_of) and id(c) not in typed_by_array:
                     kinds[i] = k1
             seq = [i for i in range(len(defs)) if outline.before[i]] + [i for i in range(len(defs)) if not outline.before[i]]
             first = next((i for i in seq if kinds[i] is not None), None)
